@@ -5,9 +5,13 @@ import re
 import gen
 
 MODULE = "OpcuaModel.Props.C09"
+EXTRA_AUDIT = [("OpcuaModel.Gen.NodeIdTie", "Opcua.Tie.")]
 TRUSTED_BASE = [
     "Lean 4.33.0 kernel; axioms of every theorem audited by collectAxioms (subset of propext, Classical.choice, Quot.sound)",
-    "hand model Model/NodeId.lean + Model/Prelude.lean (split, lstrip, int(), str(int)) tied to /repo by this correspondence run",
+    "hand model Model/NodeId.lean + Model/Prelude.lean (split, lstrip, int(), str(int)) tied to /repo by this correspondence run, and — tie (A) — by "
+    "translation: translator/py2lean.py regenerates cached_parse_nodeid / parse_nodeid / UANodeId.__str__ from the current source on every run; "
+    "Gen/NodeIdTie.lean proves generated = hand model and restates the round-trip theorems for the generated definitions (coverage.translator_tie says which case applied); "
+    "the translator (about 250 lines) and Gen/PyPrims.lean (meaning of the Python primitives) are trusted",
     "model driver (Driver.lean, JSON decoding only) and this harness",
     "CPython str.split/lstrip/int semantics as modelled in the prelude (validated here on every generated text)",
 ]
@@ -191,6 +195,8 @@ def roundtrip_cases(run, nids):
 def explore(run):
     rng = run.rng
     findings = run.findings
+    import core
+    run.extra["translator_tie"] = core.translator_tie()
     # 1. corpus: witnesses of fixed / known findings first
     corpus = []
     for f in findings.values():
